@@ -25,10 +25,18 @@ type sched struct {
 	Off    int64  `json:"off"`
 	Step   int64  `json:"step"`
 	Repeat int    `json:"repeat"`
+	// Carry: the failing Read call hands out the bytes up to the fault offset
+	// together with the error / EOF (io.Reader allows n > 0 with a non-nil error)
+	// instead of returning them first and failing on the next call.
+	Carry bool `json:"carry,omitempty"`
 }
 
 func (s sched) String() string {
-	return fmt.Sprintf("fault{plan-file=%d kind=%s at=%d step=%d repeat=%d}", s.Target, s.Kind, s.Off, s.Step, s.Repeat)
+	c := ""
+	if s.Carry {
+		c = " bytes-with-error"
+	}
+	return fmt.Sprintf("fault{plan-file=%d kind=%s at=%d step=%d repeat=%d%s}", s.Target, s.Kind, s.Off, s.Step, s.Repeat, c)
 }
 
 type fileKey struct {
@@ -74,18 +82,25 @@ type faultReader struct {
 	n     int64
 	limit int64 // < 0: no fault
 	eof   bool
+	carry bool
+}
+
+func (f *faultReader) fault() error {
+	if f.eof {
+		return io.EOF
+	}
+	return fmt.Errorf("read: %w", errInjected)
 }
 
 func (f *faultReader) Read(b []byte) (int, error) {
+	last := false
 	if f.limit >= 0 {
 		if f.n >= f.limit {
-			if f.eof {
-				return 0, io.EOF
-			}
-			return 0, fmt.Errorf("read: %w", errInjected)
+			return 0, f.fault()
 		}
-		if int64(len(b)) > f.limit-f.n {
+		if int64(len(b)) >= f.limit-f.n {
 			b = b[:f.limit-f.n]
+			last = true
 		}
 	}
 	n, err := f.rc.Read(b)
@@ -93,6 +108,9 @@ func (f *faultReader) Read(b []byte) (int, error) {
 	f.p.mu.Lock()
 	f.p.delivered[f.key] += int64(n)
 	f.p.mu.Unlock()
+	if err == nil && last && f.carry && f.n >= f.limit {
+		return n, f.fault()
+	}
 	return n, err
 }
 
@@ -134,6 +152,7 @@ func (p *faultProxy) OpenLTXFile(ctx context.Context, level int, minTXID, maxTXI
 		}
 		fr.limit = lim
 		fr.eof = p.s.Kind == "eof"
+		fr.carry = p.s.Carry
 	}
 	return fr, nil
 }
